@@ -586,6 +586,25 @@ def callees(ctx, qual: str) -> List[str]:
                 init = M.method(k[1][1], "__init__") if k[1][1] in M.classes else None
                 if init:
                     out.append(init)
+        elif isinstance(n, ast.Attribute) and ty is not None and isinstance(n.ctx, ast.Load):
+            # property getters written as methods (tail_offset, head_offset, beat_length, ...) and indexing dunders
+            try:
+                bk = ty.kind(n.value)
+            except Exception:
+                continue
+            if bk[0] in ("list", "item", "chart", "mapset", "inst", "stacker") and len(bk) > 1 and isinstance(bk[1], str) and bk[1] in M.classes:
+                mq = M.method(bk[1], n.attr)
+                if mq and mq in M.funcs and M.funcs[mq].is_property:
+                    out.append(mq)
+        elif isinstance(n, ast.Subscript) and ty is not None:
+            try:
+                bk = ty.kind(n.value)
+            except Exception:
+                continue
+            if bk[0] in ("list", "chart", "mapset", "stacker") and len(bk) > 1 and isinstance(bk[1], str) and bk[1] in M.classes:
+                mq = M.method(bk[1], "__getitem__" if isinstance(n.ctx, ast.Load) else "__setitem__")
+                if mq:
+                    out.append(mq)
     return sorted(set(out))
 
 
